@@ -60,6 +60,18 @@ fn async_case(ctx: &mut Ctx, index: u64, rng: &mut Rng) {
     };
     let pairs: Vec<((usize, usize), u32)> = pr.registered.iter().map(|(k, v)| (*k, *v)).collect();
     let mut history: Vec<String> = Vec::new();
+    // all proxies first, and they stay alive together: operations on one interface (its PropertiesChanged signals in
+    // particular) then happen while the caches of the proxies for the OTHER interfaces — possibly at the same path, possibly
+    // with a property of the same name — are listening
+    struct Live {
+        p: usize,
+        i: usize,
+        inst: u32,
+        cache_name: &'static str,
+        proxy: std::rc::Rc<crate::generated::AnyProxy>,
+        model: std::rc::Rc<std::cell::RefCell<Vec<u64>>>,
+    }
+    let mut live: Vec<Live> = Vec::new();
     for ((p, i), inst) in pairs {
         if PX_OPS[i].is_empty() {
             continue;
@@ -80,16 +92,30 @@ fn async_case(ctx: &mut Ctx, index: u64, rng: &mut Rng) {
             }
         };
         let model = std::rc::Rc::new(std::cell::RefCell::new(PX_PROP_SEEDS[i].to_vec()));
-        let nops = 6 + rng.usize_below(if ctx.thorough() { 40 } else { 14 });
-        for _ in 0..nops {
+        live.push(Live { p, i, inst, cache_name, proxy, model });
+    }
+    if live.is_empty() {
+        return;
+    }
+    if live.len() > 1 {
+        ctx.count("class:several-proxies-alive-together", 1);
+        if live.iter().enumerate().any(|(a, x)| live.iter().skip(a + 1).any(|y| x.p == y.p)) {
+            ctx.count("class:two-interfaces-proxied-at-one-path", 1);
+        }
+    }
+    let nops = live.len() * (6 + rng.usize_below(if ctx.thorough() { 40 } else { 14 }));
+    for _ in 0..nops {
+        let l = &live[rng.usize_below(live.len())];
+        let (p, i, inst, cache_name) = (l.p, l.i, l.inst, l.cache_name);
+        {
             let op = rng.usize_below(PX_OPS[i].len());
             let label = PX_OPS[i][op];
             let seed = rng.next_u64();
             history.push(format!("{} {} {label} seed={seed:x}", IFACES[i].name, PATHS[p]));
-            if history.len() > 10 {
+            if history.len() > 14 {
                 history.remove(0);
             }
-            let (px, md) = (proxy.clone(), model.clone());
+            let (px, md) = (l.proxy.clone(), l.model.clone());
             let r = run_task(&mut pr.sched, async move {
                 let mut m = md.borrow().clone();
                 let r = px_op(&px, op, seed, inst, &mut m).await;
